@@ -349,6 +349,7 @@ func applyModel(mdl **mon.SketchModel, m *gen.Map, op skOp) {
 		nm.BinsUnknown = true
 		nm.Lossy = md.Lossy + 1
 		nm.PeakAbs = md.PeakAbs * math.Max(1, op.w)
+		nm.AbsNow = md.AbsNow * op.w
 		*mdl = nm
 	}
 }
